@@ -890,4 +890,76 @@ let () =
       let bytes = if rand_int r 5 = 0 then mutate r bytes else bytes in
       case { c with asz = aszv } bytes
     done)
+
+(* ================================================================== EhHdrTableIter histories *)
+type hop = HNext | HNth of Z.t | HHint
+let hop_tok = function HNext -> "n" | HNth k -> "k" ^ Z.to_string k | HHint -> "h"
+let hop_model = function HNext -> M.ONext | HNth k -> M.ONth (n_of_z k) | HHint -> M.OHint
+
+let hiter_model dbg be hasz hb (hbytes : int list) (ops : hop list) : string = guard (fun () ->
+  let hbs = sbases_of hb in
+  match M.hdr_parse dbg be hbs (n_of_int hasz) (bytes_of_ints hbytes) with
+  | Res.Err e -> "err " ^ Errnames.name e
+  | Res.Panic -> raise Panicked | Res.OutOfFuel -> raise Fuel
+  | Res.Ok hd ->
+    (match M.hdr_table hd with
+     | None -> "ok notable"
+     | Some hd ->
+       let obs = M.tbl_run dbg hbs hd (M.tbl_iter hd) (List.map hop_model ops) in
+       "ok" ^ String.concat "" (List.map (function
+         | M.BItem None -> " N"
+         | M.BItem (Some (a, b)) -> " S" ^ ptr_str a ^ ":" ^ ptr_str b
+         | M.BErr e -> " E" ^ Errnames.name e
+         | M.BHint (lo, hi) -> " H" ^ string_of_n lo ^ ":" ^ (match hi with Some x -> string_of_n x | None -> "-")
+         | M.BPanic -> raise Panicked | M.BFuel -> raise Fuel) obs)))
+
+let () =
+  register "c05.hiter" ~doc:"EhHdrTableIter as a state machine: histories of next / nth k / size_hint on one iterator; tables of 0..6 rows x field sizes 2/4/8 (signed and unsigned) x 0/half-row/one-row/five-and-a-bit rows of trailing bytes x {nth k for every k in 0..len+1 then drain, interleaved next/nth, nth after the end, claimed count above/below the real one, huge k}; size_hint after every op; harness oracle: every yielded row is row i+k of a fresh full scan" (fun ~seed ~n emit ->
+    let le w v = List.init w (fun i -> (v lsr (8 * i)) land 255) in
+    let be_ w v = List.rev (le w v) in
+    let case ~be ~tenc ~count ~nrows ~pad (ops : hop list) =
+      let size = match tenc land 15 with 2 | 10 -> 2 | 3 | 11 -> 4 | _ -> 8 in
+      let w = if be then be_ else le in
+      let rows = List.concat (List.init nrows (fun i -> w size (0x100 * (i + 1)) @ w size (0x1000 + 0x10 * i))) in
+      let hbytes = [1; 0x03; 0x03; tenc] @ w 4 0x1000 @ w 4 count @ rows @ pad in
+      let cs = Printf.sprintf "c05.hiter %s 8 - - - %s%s" (b01 be) (hex_of_ints hbytes)
+                 (String.concat "" (List.map (fun o -> " " ^ hop_tok o) ops)) in
+      both emit cs (fun dbg -> hiter_model dbg be 8 (None, None, None) hbytes ops) in
+    let drain k = List.concat (List.init k (fun _ -> [HNext; HHint])) in
+    let zi = Z.of_int in
+    List.iter (fun tenc ->
+      let size = match tenc land 15 with 2 | 10 -> 2 | 3 | 11 -> 4 | _ -> 8 in
+      List.iter (fun pad ->
+        for len = 0 to 6 do
+          (* nth k for every k, then drain *)
+          for k = 0 to len + 1 do
+            case ~be:false ~tenc ~count:len ~nrows:len ~pad ([HHint; HNth (zi k); HHint] @ drain (len + 2))
+          done;
+          (* interleaved *)
+          case ~be:false ~tenc ~count:len ~nrows:len ~pad [HNext; HHint; HNth Z.one; HHint; HNext; HNth Z.zero; HHint; HNth (zi 2); HHint; HNext; HNext; HHint];
+          case ~be:(len mod 2 = 1) ~tenc ~count:len ~nrows:len ~pad [HNth Z.zero; HNth Z.zero; HHint; HNth Z.one; HNth Z.one; HHint; HNext; HNth (zi 3); HHint; HNext];
+          (* nth after the end *)
+          case ~be:false ~tenc ~count:len ~nrows:len ~pad (drain (len + 1) @ [HNth Z.zero; HHint; HNth Z.one; HNth (zi 5); HNext; HHint; HNth Z.zero]);
+          (* claimed count differs from the rows present *)
+          case ~be:false ~tenc ~count:(len + 2) ~nrows:len ~pad ([HNth (zi (max 0 (len - 1))); HHint] @ drain 4 @ [HNth Z.zero; HHint]);
+          if len >= 2 then case ~be:false ~tenc ~count:(len - 1) ~nrows:len ~pad ([HNth Z.one; HHint] @ drain (len + 1) @ [HNth Z.zero]);
+          (* k so large that k * row_size overflows, or only the saturating subtraction matters *)
+          case ~be:false ~tenc ~count:len ~nrows:len ~pad [HNth (p2 61); HHint; HNext; HNth (Z.pred (p2 64)); HHint; HNext; HNth (p2 32); HHint]
+        done)
+        [ []; List.init size (fun _ -> 0x55); List.init (2 * size) (fun i -> i + 1); List.init (10 * size + 1) (fun i -> 0xa0 + (i land 15)) ])
+      [0x02; 0x0a; 0x03; 0x0b; 0x04; 0x0c];
+    (* variable-size and other encodings: nth refuses, next works *)
+    List.iter (fun tenc ->
+      case ~be:false ~tenc ~count:2 ~nrows:2 ~pad:[1; 2; 3] [HHint; HNth Z.zero; HHint; HNext; HNth Z.one; HNext; HHint; HNext])
+      [0x01; 0x09; 0x00; 0x1b; 0x3b; 0x83; 0xff];
+    let r = mk_rng seed in
+    for _ = 1 to n do
+      let tenc = pick r [| 0x02; 0x0a; 0x03; 0x0b; 0x04; 0x0c; 0x1b; 0x3b; 0x01 |] in
+      let nrows = rand_int r 7 in
+      let count = match rand_int r 6 with 0 -> nrows + rand_int r 3 | 1 -> max 0 (nrows - 1) | _ -> nrows in
+      let pad = rand_bytes r (pick r [| 0; 0; 3; 8; 16; 40 |]) in
+      let ops = List.init (1 + rand_int r 12) (fun _ ->
+        match rand_int r 6 with 0 | 1 -> HNext | 2 -> HHint | 3 -> HNth Z.zero | 4 -> HNth (zi (rand_int r 4)) | _ -> HNth (zi (rand_int r 9))) in
+      case ~be:(rand_int r 4 = 0) ~tenc ~count ~nrows ~pad ops
+    done)
 let init () = ()
